@@ -59,12 +59,12 @@ def c18Req (j : Json) : Except String Req := do
 
 open Model.AutoPop in
 def c18Path : String → Except String Path
-  | "sync" => pure .sync | "asyncio" => pure .asyncio | "rest" => pure .rest
+  | "sync" => pure .sync | "asyncio" => pure .asyncio | "rest" => pure .rest | "rest_asyncio" => pure .restAsyncio
   | p => throw s!"bad path {p}"
 
 open Model.AutoPop in
 def c18Mode : String → Except String Mode
-  | "inst" => pure .inst | "dict" => pure .dict | "kwargs" => pure .kwargs
+  | "inst" => pure .inst | "dict" => pure .dict | "kwargs" => pure .kwargs | "none" => pure .none
   | p => throw s!"bad mode {p}"
 
 /-- the k-th uuid is written `$k`: the harness compares which fields carry generated values and which
@@ -74,27 +74,46 @@ def c18Gen (k : Nat) : String := "$" ++ toString k
 open Model.AutoPop in
 def opC18Session (j : Json) : Except String Json := do
   let m ← c18Method (← j.getObjVal? "method")
-  let s : Option Settings ← match j.getObjVal? "fields" with
-    | .ok Json.null => pure none
+  -- either the whole settings list (the method's entry is looked up as the macro does) or the field list
+  let (s, imports) : Option Settings × Option Bool ← match j.getObjVal? "settings" with
     | .ok v => do
-      let fs ← (← v.getArr?).toList.mapM fun f => f.getStr?
-      pure (some ⟨m.selector, fs⟩)
-    | .error _ => pure none
+      let ss ← (← v.getArr?).toList.mapM c18Settings
+      pure (settingsFor ss m.selector, some (importsUuid ss))
+    | .error _ => match j.getObjVal? "fields" with
+      | .ok Json.null => pure (none, none)
+      | .ok v => do
+        let fs ← (← v.getArr?).toList.mapM fun f => f.getStr?
+        pure (some ⟨m.selector, fs⟩, none)
+      | .error _ => pure (none, none)
   let path ← c18Path (← c18Str j "path")
   let objects ← (← getArrL j "objects").mapM c18Req
   let calls ← (← getArrL j "calls").mapM fun c => do
     match (← c.getArr?).toList with
-    | [Json.str mode, i] => pure (← c18Mode mode, ← i.getNat?)
+    | [Json.str mode, i] => pure (← c18Mode mode, ← i.getNat?, ([] : List String))
+    | [Json.str mode, i, toks] => do
+      let ts ← (← toks.getArr?).toList.mapM fun t => t.getStr?
+      pure (← c18Mode mode, ← i.getNat?, ts)
     | _ => throw "bad call"
-  if calls.any (fun c => c.2 ≥ objects.length) then
+  if calls.any (fun c => c.2.1 ≥ objects.length) then
     return unsupported "object index out of range"
-  let out := session c18Gen m s path calls objects 0
-  pure (Json.mkObj [("calls", jarr (out.map fun r =>
+  let out := session c18Gen m s path (calls.map fun c => (c.1, c.2.1)) objects 0
+  let wire (r : Req) : Json := Json.mkObj (m.input.map fun fd => (fd.name, optJson Json.str (wireVal fd r)))
+  pure (Json.mkObj [
+    ("imports", optJson Json.bool imports),
+    ("calls", jarr ((out.zip calls).map fun (r, c) =>
     match r with
     | none => Json.null
     | some r => Json.mkObj [
         ("sent", jarr (r.map fun (k, v) => jarr [Json.str k, Json.str v])),
-        ("wire", Json.mkObj (m.input.map fun fd => (fd.name, optJson Json.str (wireVal fd r))))]))])
+        ("wire", wire r),
+        ("pages", jarr ((pageRequests r c.2.2).map wire))]))])
+
+open Model.AutoPop in
+def opC18Imports (j : Json) : Except String Json := do
+  let ss ← (← getArrL j "settings").mapM c18Settings
+  let sel ← c18Str j "selector"
+  pure (Json.mkObj [("imports", Json.bool (importsUuid ss)),
+                    ("fields", optJson (fun (s : Settings) => jarr (s.fields.map Json.str)) (settingsFor ss sel))])
 
 open Model.AutoPop in
 def c18StmtName : Stmt → String
@@ -108,6 +127,7 @@ def opC18Pipeline (j : Json) : Except String Json := do
   pure (Json.mkObj [("stmts", jarr ((pipeline path).map fun s => Json.str (c18StmtName s)))])
 
 def opsC18 : List (String × (Json → Except String Json)) :=
-  [("c18.validate", opC18Validate), ("c18.session", opC18Session), ("c18.pipeline", opC18Pipeline)]
+  [("c18.validate", opC18Validate), ("c18.session", opC18Session), ("c18.pipeline", opC18Pipeline),
+   ("c18.imports", opC18Imports)]
 
 end GapicModel.Driver
